@@ -11,6 +11,7 @@ EXPECT = {
     "N1/panic": ("bad_panic", lambda an, rep, c, roots: N.may_panic(an, rep, "decode", "N1", 0, 0, crate=c, roots=roots)),
     "N1/index": ("bad_index", lambda an, rep, c, roots: N.may_panic(an, rep, "decode", "N1", 0, 0, crate=c, roots=roots)),
     "U2": ("bad_transmute", lambda an, rep, c, roots: U.transmutes(an, rep, crate=c)),
+    "U7": ("bad_unbounded", lambda an, rep, c, roots: U.unbounded_lifetimes(an, rep, crate=c)),
     "U3": ("bad_uninit", lambda an, rep, c, roots: U.uninit_apis(an, rep, crate=c)),
 }
 
